@@ -68,6 +68,12 @@ func NewTimerWheel[K comparable, V any](size uint) *TimerWheel[K, V] {
 }
 
 func (tw *TimerWheel[K, V]) findIndex(expire int64) (int, int) {
+	// the slot of a deadline that has already passed is behind the cursor
+	// and would only be visited after a full rotation, use the slot of the
+	// current tick instead so the next advance expires the entry.
+	if expire < tw.nanos {
+		expire = tw.nanos
+	}
 	duration := expire - tw.nanos
 	for i := 0; i < 5; i++ {
 		if duration < int64(tw.spans[i+1]) {
